@@ -16,8 +16,10 @@ receiver (the entry points; pure setters are recognised and listed apart), compu
 Dataflow (deliberately simple and conservative): events are taken in textual order, a callee `self.m(..)` is inlined at
 the call (trait-provided `walk`/`descend`/`build_edits`/... are looked up in `TRAIT_FILES`), the right-hand side of an
 assignment is read before the left-hand side is defined, and a definition made inside a `{ }` block (loop body, branch,
-match arm, closure) is forgotten when the block ends (a loop may run zero times, a branch may not be taken).  Early
-returns (`?`, `return`) need no treatment: the state a failed call leaves behind is *some* state, and the question asked
+match arm, closure) is forgotten when the block ends (a loop may run zero times, a branch may not be taken).  A CALLEE
+that can return successfully from inside a branch (`if .. { return Ok(()); }`) passes on to its caller only what it had
+assigned before that point, and what it assigns afterwards is not a reset (seeded C17-5: the `line_map` reset moved
+behind such a return in `set_line_ref_map`).  Early returns of the ENTRY POINT itself (`?`, `return`) need no treatment: the state a failed call leaves behind is *some* state, and the question asked
 is whether the next call can see ANY earlier state.
 
 `config` fields = fields no entry point may write (token maps, settings, flags set by a setter): reading them is reading
@@ -153,7 +155,7 @@ class Tool:
 
     def analyse(self, entry):
         """returns (reset, carried, writes) as ordered lists of field names"""
-        st = {"carried": [], "writes": [], "reset": [], "stack": [], "via": []}
+        st = {"carried": [], "writes": [], "reset": [], "stack": [], "via": [], "cond": 0}
         defined = set()
         self._walk(entry, defined, st, True)
         reset = [f for f in st["reset"] if f not in st["carried"]]
@@ -180,10 +182,16 @@ class Tool:
             return
         st["stack"].append(name)
         text, b, c = src
-        self._scan(text, b + 1, c, defined, st, top)
+        ret = {"snap": None, "callee": len(st["stack"]) > 1}
+        self._scan(text, b + 1, c, defined, st, top, ret)
+        if ret["callee"] and ret["snap"] is not None:
+            # the callee may have returned (successfully) from inside a branch: what it assigned AFTER that point is
+            # not assigned on every path back to the caller
+            defined.clear(); defined.update(ret["snap"])
+            st["cond"] -= 1
         st["stack"].pop()
 
-    def _scan(self, text, lo, hi, defined, st, top):
+    def _scan(self, text, lo, hi, defined, st, top, ret=None):
         """scan text[lo:hi]; `defined` is mutated for definitions on this level, restored around nested blocks;
         `top` = this level is the straight-line top level of the entry point (definitions here are resets)"""
         i = lo
@@ -209,6 +217,13 @@ class Tool:
                 stmt_start = i + 1
                 i += 1
                 continue
+            if ret is not None and ret["callee"] and ret["snap"] is None and saved and ch == "r" and text.startswith("return", i) \
+                    and not (text[i - 1].isalnum() or text[i - 1] == "_") and not (text[i + 6].isalnum() or text[i + 6] == "_") \
+                    and not re.match(r"return\s+Err\b", text[i:i + 16]):
+                # a successful early return inside a branch of a CALLEE: definitions made from here on hold only on the
+                # paths that did not return; they are neither resets nor visible to the caller after the call
+                ret["snap"] = set(saved[0][0])
+                st["cond"] += 1
             m = re.match(r"self\b", text[i:i + 5]) if ch == "s" and (i == 0 or not (text[i - 1].isalnum() or text[i - 1] == "_")) else None
             if not m:
                 i += 1
@@ -261,7 +276,7 @@ class Tool:
                 self._scan(text, e2 + 1, end, defined, st, False)
                 self._note_write(f, st)
                 defined.add(f)
-                if cur_top and f not in st["reset"] and f not in st["carried"]:
+                if cur_top and st["cond"] == 0 and f not in st["reset"] and f not in st["carried"]:
                     st["reset"].append(f)
                 i = end
                 continue
@@ -270,7 +285,7 @@ class Tool:
             if head == "" and cm:
                 self._note_write(f, st)
                 defined.add(f)
-                if cur_top and f not in st["reset"] and f not in st["carried"]:
+                if cur_top and st["cond"] == 0 and f not in st["reset"] and f not in st["carried"]:
                     st["reset"].append(f)
                 i = e + cm.end() - 1
                 continue
